@@ -220,7 +220,9 @@ def runSection (r : Report) (s : Section) : Report := Id.run do
                 (joinSp l.obs)
             -- conservation (monitor): the implementation's flying counter is admitted − resolved
             let h' := inst.h.observe (.allow over v)
-            if !inst.dirty && kvInt l.obs "flying" (-999) ≠ h'.inFlight then
+            if (kv? l.obs "flying").isNone then
+              r := r.mismatch s.idx l.idx "the white-box fields of an adaptive shedder" (joinSp l.obs ++ " (NewAdaptiveShedder returned something else although load shedding is enabled)")
+            else if !inst.dirty && kvInt l.obs "flying" (-999) ≠ h'.inFlight then
               r := r.violation s.idx l.idx s!"in-flight counter {kvInt l.obs "flying" (-999)} but admitted-resolved = {h'.inFlight}"
           let h' := inst.h.observe (.allow over v)
           st := { st with insts := setInst st.insts { inst with sh := sh', h := h' } }
@@ -254,7 +256,7 @@ def runSection (r : Report) (s : Section) : Report := Id.run do
           let okAvg := ((kv? l.obs "avg").bind parseRat).map (Spec.near sh'.avgFlying) = some true
           if !(okFly && okAvg) then
             r := r.mismatch s.idx l.idx s!"flying={sh'.flying} avg={showRat sh'.avgFlying}" (joinSp l.obs)
-          if !dirty then
+          if !dirty && (kv? l.obs "flying").isSome then
             if kvInt l.obs "flying" (-999) ≠ h'.inFlight then
               r := r.violation s.idx l.idx s!"in-flight counter {kvInt l.obs "flying" (-999)} but admitted-resolved = {h'.inFlight}"
             if ((kv? l.obs "avg").bind parseRat).map (Spec.near h'.avg) ≠ some true then
